@@ -36,6 +36,9 @@ type domain struct {
 	mutDict []string
 	scale   []scaleFam
 	sig     func(string) string
+	// byteTemplates: inputs with the placeholder "\xfe\xfe" standing for one
+	// byte; instantiated with all 256 byte values
+	byteTemplates []string
 }
 
 type scaleFam struct{ prefix, unit, suffix string }
@@ -62,6 +65,8 @@ func planMix(d *domain, mixes []Mix) []core.Unit {
 			us = append(us, gen.RangeUnits("novel", m.N, 25000, m.Dict)...)
 		case "bytes":
 			us = append(us, core.Unit{Gen: "bytes", Lo: 0, Hi: 256})
+			// every byte value in every template position of the domain
+			us = append(us, gen.RangeUnits("bytetpl", 256, 16, "")...)
 		case "scale":
 			// N = size in bytes; one unit per family so that workers share them
 			for i := range d.scale {
@@ -159,6 +164,13 @@ func genMix(d *domain, w *core.Worker, u core.Unit, emit func(core.Case)) bool {
 			b := string([]byte{byte(i)})
 			for _, n := range []int{1, 2, 3, 33} {
 				emit(core.Case{In: strings.Repeat(b, n)})
+			}
+		}
+	case "bytetpl":
+		for i := u.Lo; i < u.Hi; i++ {
+			b := string([]byte{byte(i)})
+			for _, t := range d.byteTemplates {
+				emit(core.Case{In: strings.ReplaceAll(t, "\xfe\xfe", b)})
 			}
 		}
 	case "scale":
